@@ -83,7 +83,8 @@ class LUTState:
 
 def get_lut_index(arch, lut_tensor):
     # Returns the index in SHRAM where the given LUT is stored, a value between 0 and 8
-    slot = (lut_tensor.address - arch.shram_lut_address) // lut_tensor.storage_size()
+    # The index counts 256-byte slots (as in optimize_high_level_cmd_stream), independent of the size of the LUT
+    slot = (lut_tensor.address - arch.shram_lut_address) // 256
     assert 0 <= slot < 8
     return slot
 
